@@ -62,15 +62,24 @@ def parseTok (t : String) : Option (Ev × Option (List Nat)) :=
   | ['U', '0', '!'] => some (.taskClear true, none)
   | _ => none
 
+def insertSorted (x : Nat) : List Nat → List Nat
+  | [] => [x]
+  | y :: l => if x ≤ y then x :: y :: l else y :: insertSorted x l
+
+def sortNat (l : List Nat) : List Nat := l.foldr insertSorted []
+
 def summary (s : State) : String :=
   "acc st=" ++ showState s.st ++ " buf=" ++ showNatList s.buffer ++ " infl=" ++ showNatList s.inflight ++
   " dlv=" ++ showNatList s.delivered ++ " ctr=" ++ toString s.ctr ++
-  " limbo=" ++ showNatList (s.pending ++ s.waiting ++ s.stuck) ++
-  " lost=" ++ showNatList (s.cancelled ++ s.rejected) ++ " ov=" ++ showBool s.orderViol ++
-  " stuck=" ++ showNatList s.stuck
+  " limbo=" ++ showNatList (sortNat (s.pending ++ s.waiting ++ s.stuck)) ++
+  " lost=" ++ showNatList (sortNat (s.cancelled ++ s.rejected))
 
-def runTokens (nx : State → Ev → Option State) (s : State) (k : Nat) : List String → String
-  | [] => summary s
+def flags (s : State) : String :=
+  "ov=" ++ showBool s.orderViol ++ " stuck=" ++ showNatList (sortNat s.stuck)
+
+def runTokens (nx : State → Ev → Option State) (fin : State → String) (s : State) (k : Nat) :
+    List String → String
+  | [] => fin s
   | t :: ts =>
     match parseTok t with
     | none => "bad-op " ++ toString k ++ " " ++ t
@@ -78,15 +87,21 @@ def runTokens (nx : State → Ev → Option State) (s : State) (k : Nat) : List 
       if (match ids with | some l => l != s.batch | none => false) then
         "rej " ++ toString k ++ " " ++ t ++ " batch-ids"
       else match nx s e with
-        | some s' => runTokens nx s' (k + 1) ts
+        | some s' => runTokens nx fin s' (k + 1) ts
         | none => "rej " ++ toString k ++ " " ++ t ++ " st=" ++ showState s.st
 
-/-- ops:  `trace <tok> <tok> …`   → `acc …` | `rej <index> <token> …`
-          `mutant <tok> …`        → same with the mutant transition function (self-test) -/
+def toks (s : String) : List String := (s.splitOn " ").filter (· ≠ "")
+
+/-- ops:  `trace <tok> <tok> …`   → `acc st=… buf=… infl=… dlv=… ctr=… limbo=… lost=…` | `rej <index> <token> …`
+          `mutant <tok> …`        → same with the mutant transition function (self-test)
+          `flags <tok> …`         → `ov=<0|1> stuck=<ids>` (model-side order / stuck verdict) | `rej …`
+          `verdict <tok> …`       → `acc` | `rej` -/
 def step (_ : Unit) (line : String) : Unit × String :=
   match fields line with
-  | ["trace", toks] => ((), runTokens next init 0 ((toks.splitOn " ").filter (· ≠ "")))
-  | ["mutant", toks] => ((), runTokens nextMutant init 0 ((toks.splitOn " ").filter (· ≠ "")))
+  | ["trace", t] => ((), runTokens next summary init 0 (toks t))
+  | ["mutant", t] => ((), runTokens nextMutant summary init 0 (toks t))
+  | ["flags", t] => ((), runTokens next flags init 0 (toks t))
+  | ["verdict", t] => ((), ((runTokens next (fun _ => "acc") init 0 (toks t)).take 3).toString)
   | _ => ((), "bad-op")
 
 end Driver.Runner
